@@ -32,6 +32,8 @@ macro_rules! check_pair {
         let modulus: u128 = 1u128 << $bits;
         let x = $T(a);
         let mut bad: Option<(&str, String)> = None;
+        let judged = std::panic::catch_unwind(std::panic::AssertUnwindSafe(|| {
+        let mut bad: Option<(&str, String)> = None;
         // checked / overflowing add
         let sum = wa + wb;
         let want = (sum < modulus).then(|| sum);
@@ -88,6 +90,12 @@ macro_rules! check_pair {
         if up < modulus && wa + p - 1 < modulus && Tr::unchecked_align_up(&x, p as $V).0 as u128 != up {
             bad = Some(("unchecked_align_up", "".into()));
         }
+        bad
+        }));
+        match judged {
+            Ok(b) => bad = b,
+            Err(_) => bad = Some(("panic", "an operation panicked on operands inside its documented domain".into())),
+        }
         if let Some((op, d)) = bad {
             let key = format!("C19/{}/{}", $name, op);
             $ctx.fail(&key, &format!("a={:#x} b={:#x}: {}", a, b, d), json!({"type": $name, "a": format!("{:#x}", a), "b": format!("{:#x}", b), "op": op}));
@@ -100,6 +108,7 @@ fn main() {
     let args: Vec<String> = std::env::args().collect();
     let tier = if args.iter().any(|a| a == "thorough") { Tier::Thorough } else { Tier::Quick };
     let ctx = Ctx::new("C19", tier, "exploration");
+    std::panic::set_hook(Box::new(|_| {}));
     ctx.set_rule("impl_address_ops! and the Address default methods compiled from the current tree's src/address.rs, instantiated at width 8 (all 2^16 operand pairs) and width 16 (boundary grid in the quick tier, all 2^32 pairs in the thorough tier) x every operation against u128 arithmetic");
     ctx.assume("the operations are width-generic (one macro, one trait)");
     for a in 0..=u8::MAX {
